@@ -89,8 +89,11 @@ def name_call(E, n, st, name):
         elif name == "isinstance":
             yield s1, SV(SpecEval(E, s1, s1, {}).isinst(args[0], n.args[1]), BOOL)
         elif name in ("str", "repr"):
-            fn = z3.Function("str_of_" + T._sname(args[0].ty.sort), args[0].ty.sort, Str)
-            yield s1, SV(fn(args[0].v), STR)
+            if name == "str" and args[0].ty is STR:
+                yield s1, args[0]
+            else:
+                fn = z3.Function("str_of_" + T._sname(args[0].ty.sort), args[0].ty.sort, Str)
+                yield s1, SV(fn(args[0].v), STR)
         elif name == "id":
             fn = z3.Function("id_of", args[0].ty.sort, I)
             yield s1, SV(fn(args[0].v), INT)
@@ -164,6 +167,11 @@ def attr_call(E, n, st):
                     if c is None: raise Unsupported("no contract for %s.%s" % (mod, f.attr))
                     yield from apply_contract(E, c, recv, rest, kw, s1, n)
             return
+        if (mod + "." + f.attr) in reg.contracts:
+            for s1, av in evargs(E, n, st):
+                if isinstance(av, Exc): yield s1, av; continue
+                yield from apply_contract(E, reg.contracts[mod + "." + f.attr], None, av[0], av[1], s1, n)
+            return
         if mod in ("nx", "sys", "traceback", "warnings", "os", "shutil", "pathlib", "itertools", "ast", "json"):
             for s1, av in evargs(E, n, st):
                 if isinstance(av, Exc): yield s1, av; continue
@@ -198,6 +206,8 @@ def attr_call(E, n, st):
                     yield from apply_contract(E, c, recv, args, kw, s2, n); continue
             if ct is not None or isinstance(recv.ty, (SeqT,)):
                 yield from container_method(E, n, s2, recv, f.attr, args, kw); continue
+            if recv.ty is STR and ("Path." + f.attr) in reg.contracts:
+                yield from apply_contract(E, reg.contracts["Path." + f.attr], recv, args, kw, s2, n); continue
             if recv.ty is STR and f.attr in OPAQUE_STR_FUNCS | {"split", "isidentifier"}:
                 yield s2, E.fresh_sv("str", STR); continue
             raise Unsupported("method %s on %s at line %s" % (f.attr, recv.ty, n.lineno))
@@ -492,15 +502,15 @@ def apply_contract(E, c, recv, args, kw, st, n):
         s2 = st.copy()
         if not c.pure:
             tmp = s2.copy(); tmp.loc = dict(params)
+            if c.alloc:
+                al0 = s2.H("alloc", B); al1 = E.fresh("alloc", al0.sort()); r = E.fresh("r", Ref)
+                s2.pc.append(z3.ForAll([r], z3.Implies(al0[r], al1[r]))); s2.setH("alloc", al1)
             saved_old = E.old
             E.old = pre
             try:
                 E.havoc_locs(s2, pre, c.modifies, "call_%s" % c.name)
             finally:
                 E.old = saved_old
-            if c.alloc:
-                al0 = s2.H("alloc", B); al1 = E.fresh("alloc", al0.sort()); r = E.fresh("r", Ref)
-                s2.pc.append(z3.ForAll([r], z3.Implies(al0[r], al1[r]))); s2.setH("alloc", al1)
         return s2
 
     # ---- normal edge
